@@ -600,6 +600,17 @@ func (t *Transport) gsReqRecdHook(p peer.ID, request graphsync.RequestData, hook
 
 		log.Debugf("%s: received request for data (pull), req_id=%d", chid, request.ID())
 
+		// Processing a cancel cleans up the channel, which takes the channel
+		// lock, so it must not run under that lock. There is no data to send
+		// for a cancel either, so handle it here and end the graphsync request.
+		if msg.IsCancel() {
+			if _, err := t.events.OnRequestReceived(chid, msg.(datatransfer.Request)); err != nil {
+				log.Infof("%s: processing cancel on req_id=%d: %s", chid, request.ID(), err)
+			}
+			hookActions.TerminateWithError(errors.New("data transfer channel cancelled"))
+			return
+		}
+
 		// Lock the channel for the duration of this method
 		ch = t.trackDTChannel(chid)
 		ch.lk.Lock()
